@@ -222,6 +222,12 @@ func validConfigs(thorough bool) []ValidCfg {
 			}
 		}
 	}
+	// rejected Puts (ID wrong for the mode) between the others: they must neither store nor count as a collection
+	for _, gc := range []int{-1, 8} {
+		for _, auto := range []bool{false, true} {
+			out = append(out, ValidCfg{TTL: 2, GC: gc, Auto: auto, MaxAdvances: 5, MaxMacros: 1, Ops: []int{0, 9, 3, 4, 5, 8}, RejectedPuts: true})
+		}
+	}
 	// an injected clock that runs 25 years behind the machine's
 	for _, gc := range []int{-1, 8} {
 		for _, auto := range []bool{false, true} {
@@ -286,6 +292,8 @@ func validCheck(prop, which string) *sqrun.Check {
 					d = 5
 				} else if cfg.PastClock {
 					d = 6
+				} else if cfg.RejectedPuts {
+					d = 7
 				} else if !c.Thorough {
 					if cfg.TTL == 3 {
 						d = depth - 2
@@ -294,6 +302,9 @@ func validCheck(prop, which string) *sqrun.Check {
 					}
 				}
 				cfg.Depth = d
+				if cfg.Ops == nil {
+					cfg.Ops = defaultValidOps
+				}
 				nops := len(ValidOps)
 				if cfg.Ops != nil {
 					nops = len(cfg.Ops)
